@@ -33,7 +33,10 @@ type primObject struct {
 	p      any
 	peer   any // counterpart primitive made from the pristine material (prepares valid inputs only)
 	before Probe
+	resub  func() string
 }
+
+func (o *primObject) setResub(f func() string) { o.resub = f }
 
 // peerOf builds the counterpart of a primitive kind from the pristine (private) handle.
 func peerOf(kind string, twin *keyset.Handle) any {
@@ -50,6 +53,10 @@ func peerOf(kind string, twin *keyset.Handle) any {
 		return must(hybrid.NewHybridEncrypt(must(twin.Public())))
 	case "streaming":
 		return must(streamingaead.New(twin))
+	case "prf":
+		return must(prf.NewPRFSet(twin))
+	case "deriver":
+		return must(keyderivation.New(twin))
 	}
 	return nil
 }
@@ -61,19 +68,62 @@ type directObject struct {
 	twin  any
 	probe Probe
 	extra any
+	resub func() string
 }
 
+func (o *directObject) setResub(f func() string) { o.resub = f }
+
 func obsDirect(x any) map[string]string {
-	return map[string]string{"behaviour": x.(*directObject).probe()}
+	o := x.(*directObject)
+	return map[string]string{"behaviour": o.probe(), "resubmit": resubmit(o.resub)}
+}
+
+// Re-submission: a deterministic call remembers the caller buffers it was last given; every later
+// observation hands THE SAME BUFFERS (with whatever they hold by then) to the object again and
+// exact-size copies of their content to the pristine counterpart.  "true" = same answer.  An object
+// that kept a reference to an earlier input (a cache keyed by the caller's slice, a retained message)
+// answers for the old content and shows up when the caller overwrites that input.
+func resubmit(f func() string) string {
+	if f == nil {
+		return "true"
+	}
+	return f()
+}
+
+func setResub(o any, f func() string) {
+	if r, ok := o.(interface{ setResub(func() string) }); ok {
+		r.setResub(f)
+	}
+}
+
+func sameAnswer(a []byte, e1 error, b []byte, e2 error) string {
+	return boolStr((e1 == nil) == (e2 == nil) && (e1 != nil || bytes.Equal(a, b)))
 }
 
 func obsPrim(x any) map[string]string {
 	o := x.(*primObject)
 	return map[string]string{
-		"keyset": ksDigest(o.h),
-		"before": o.before(),
-		"after":  primitiveProbe(o.kind, o.h, o.twin)(),
+		"keyset":   ksDigest(o.h),
+		"before":   o.before(),
+		"after":    primitiveProbe(o.kind, o.h, o.twin)(),
+		"resubmit": resubmit(o.resub),
 	}
+}
+
+// twinVerifier: a verifier made from the pristine material (factory targets only).
+func twinVerifier(o any) tink.Verifier {
+	if p, ok := o.(*primObject); ok {
+		pub, err := p.twin.Public()
+		if err != nil {
+			return nil
+		}
+		v, err := signature.NewVerifier(pub)
+		if err != nil {
+			return nil
+		}
+		return v
+	}
+	return nil
 }
 
 // withPrefix returns a copy of the keyset with every key's output prefix type replaced.
@@ -177,8 +227,14 @@ func primitiveUses(kind, impl, concrete string, get func(o any) any, peer func(o
 				c.Site(impl+".Decrypt", ops("AEAD", "Decrypt")...)
 				aad := c.Rand(7)
 				ct := must(peer(o).(tink.AEAD).Encrypt(c.Rand(33), aad))
-				pt, err := get(o).(tink.AEAD).Decrypt(c.In("ciphertext", ct), c.In("associatedData", aad))
+				ctb, adb := c.In("ciphertext", ct), c.In("associatedData", aad)
+				pt, err := get(o).(tink.AEAD).Decrypt(ctb, adb)
 				c.Check(err)
+				setResub(o, func() string {
+					a, e1 := get(o).(tink.AEAD).Decrypt(ctb, adb)
+					b, e2 := peer(o).(tink.AEAD).Decrypt(clone(ctb), clone(adb))
+					return sameAnswer(a, e1, b, e2)
+				})
 				c.Out("plaintext", pt)
 			},
 			func(c *Call, o any) { // empty plaintext and empty associated data, still with spare capacity
@@ -192,8 +248,14 @@ func primitiveUses(kind, impl, concrete string, get func(o any) any, peer func(o
 		return []func(c *Call, o any){
 			func(c *Call, o any) {
 				c.Site(impl+".EncryptDeterministically", ops("DeterministicAEAD", "EncryptDeterministically")...)
-				ct, err := get(o).(tink.DeterministicAEAD).EncryptDeterministically(c.In("plaintext", c.Rand(21)), c.In("associatedData", c.Rand(5)))
+				pt, ad := c.In("plaintext", c.Rand(21)), c.In("associatedData", c.Rand(5))
+				ct, err := get(o).(tink.DeterministicAEAD).EncryptDeterministically(pt, ad)
 				c.Check(err)
+				setResub(o, func() string {
+					a, e1 := get(o).(tink.DeterministicAEAD).EncryptDeterministically(pt, ad)
+					b, e2 := peer(o).(tink.DeterministicAEAD).EncryptDeterministically(clone(pt), clone(ad))
+					return sameAnswer(a, e1, b, e2)
+				})
 				c.Out("ciphertext", ct)
 			},
 			func(c *Call, o any) {
@@ -215,8 +277,14 @@ func primitiveUses(kind, impl, concrete string, get func(o any) any, peer func(o
 		return []func(c *Call, o any){
 			func(c *Call, o any) {
 				c.Site(impl+".ComputeMAC", ops("MAC", "ComputeMAC")...)
-				tag, err := get(o).(tink.MAC).ComputeMAC(c.In("data", c.Rand(19)))
+				data := c.In("data", c.Rand(19))
+				tag, err := get(o).(tink.MAC).ComputeMAC(data)
 				c.Check(err)
+				setResub(o, func() string {
+					a, e1 := get(o).(tink.MAC).ComputeMAC(data)
+					b, e2 := peer(o).(tink.MAC).ComputeMAC(clone(data))
+					return sameAnswer(a, e1, b, e2)
+				})
 				c.Out("mac", tag)
 			},
 			func(c *Call, o any) {
@@ -236,8 +304,14 @@ func primitiveUses(kind, impl, concrete string, get func(o any) any, peer func(o
 		return []func(c *Call, o any){
 			func(c *Call, o any) {
 				c.Site(impl+".ComputePrimaryPRF", ops("Set", "ComputePrimaryPRF")...)
-				out, err := get(o).(*prf.Set).ComputePrimaryPRF(c.In("input", c.Rand(19)), 16)
+				in := c.In("input", c.Rand(19))
+				out, err := get(o).(*prf.Set).ComputePrimaryPRF(in, 16)
 				c.Check(err)
+				setResub(o, func() string {
+					a, e1 := get(o).(*prf.Set).ComputePrimaryPRF(in, 16)
+					b, e2 := peer(o).(*prf.Set).ComputePrimaryPRF(clone(in), 16)
+					return sameAnswer(a, e1, b, e2)
+				})
 				c.Out("output", out)
 			},
 			func(c *Call, o any) {
@@ -276,8 +350,14 @@ func primitiveUses(kind, impl, concrete string, get func(o any) any, peer func(o
 		return []func(c *Call, o any){
 			func(c *Call, o any) {
 				c.Site(impl+".Wrap", concrete+".Wrap")
-				ct, err := get(o).(kwp).Wrap(c.In("data", c.Rand(21)))
+				data := c.In("data", c.Rand(21))
+				ct, err := get(o).(kwp).Wrap(data)
 				c.Check(err)
+				setResub(o, func() string {
+					a, e1 := get(o).(kwp).Wrap(data)
+					b, e2 := peer(o).(kwp).Wrap(clone(data))
+					return sameAnswer(a, e1, b, e2)
+				})
 				c.Out("wrapped", ct)
 			},
 			func(c *Call, o any) {
@@ -292,8 +372,14 @@ func primitiveUses(kind, impl, concrete string, get func(o any) any, peer func(o
 		return []func(c *Call, o any){
 			func(c *Call, o any) {
 				c.Site(impl+".ComputePRF", ops("PRF", "ComputePRF")...)
-				out, err := get(o).(prf.PRF).ComputePRF(c.In("input", c.Rand(19)), 16)
+				in := c.In("input", c.Rand(19))
+				out, err := get(o).(prf.PRF).ComputePRF(in, 16)
 				c.Check(err)
+				setResub(o, func() string {
+					a, e1 := get(o).(prf.PRF).ComputePRF(in, 16)
+					b, e2 := peer(o).(prf.PRF).ComputePRF(clone(in), 16)
+					return sameAnswer(a, e1, b, e2)
+				})
 				c.Out("output", out)
 			},
 			func(c *Call, o any) {
@@ -324,7 +410,14 @@ func primitiveUses(kind, impl, concrete string, get func(o any) any, peer func(o
 				c.Site(impl+".Verify", ops("Verifier", "Verify")...)
 				data := c.Rand(23)
 				sig := must(peer(o).(tink.Signer).Sign(data))
-				c.Check(get(o).(tink.Verifier).Verify(c.In("signature", sig), c.In("data", data)))
+				sb, db := c.In("signature", sig), c.In("data", data)
+				c.Check(get(o).(tink.Verifier).Verify(sb, db))
+				twinV := twinVerifier(o)
+				if twinV != nil {
+					setResub(o, func() string {
+						return boolStr((get(o).(tink.Verifier).Verify(sb, db) == nil) == (twinV.Verify(clone(sb), clone(db)) == nil))
+					})
+				}
 			},
 			func(c *Call, o any) {
 				c.Site(impl+".Verify", ops("Verifier", "Verify")...)
@@ -395,8 +488,14 @@ func primitiveUses(kind, impl, concrete string, get func(o any) any, peer func(o
 		return []func(c *Call, o any){
 			func(c *Call, o any) {
 				c.Site(impl+".DeriveKeyset", ops("KeysetDeriver", "DeriveKeyset")...)
-				h, err := get(o).(keyderivation.KeysetDeriver).DeriveKeyset(c.In("salt", c.Rand(11)))
+				salt := c.In("salt", c.Rand(11))
+				h, err := get(o).(keyderivation.KeysetDeriver).DeriveKeyset(salt)
 				c.Check(err)
+				setResub(o, func() string {
+					a, e1 := get(o).(keyderivation.KeysetDeriver).DeriveKeyset(salt)
+					b, e2 := peer(o).(keyderivation.KeysetDeriver).DeriveKeyset(clone(salt))
+					return boolStr((e1 == nil) == (e2 == nil) && (e1 != nil || ksDigest(a) == ksDigest(b)))
+				})
 				if err == nil {
 					c.OutMsg("derivedKeyset", insecurecleartextkeyset.KeysetMaterial(h))
 				}
